@@ -1,5 +1,5 @@
 from .. import facts
-from ..rules import tables, opacity, algebra, factors, floatmask
+from ..rules import tables, opacity, algebra, factors, floatmask, codec
 
 
 def run(ck):
@@ -17,3 +17,4 @@ def run(ck):
     floatmask.r7_set_sat(ck, P)
     opacity.r2_opacity_flags(ck, P)          # C09-R2: a wrongly opaque source has its operator rewritten and the equations no longer hold
     tables.r15_pixbuf_substitution(ck, P)
+    codec.r12_simd_helpers(ck, P, 'C01-R8')
